@@ -68,11 +68,12 @@ _DEPTH = re.compile(r"depth of the complete state graph search is (\d+)")
 
 def run_tlc(module: str, cfg_text: str, workdir: str, *, workers=16, env=None, simulate=None,
             depth=None, seed=None, timeout=3600, extra=(), coverage=False, heap="8g",
-            keep_stdout=True, tag="tlc", allow_violation=False, stack=None):
+            keep_stdout=True, tag="tlc", allow_violation=False, stack=None, on_json=None):
     """Run TLC on /verif/spec/<module>.tla with the given cfg.
 
     Returns dict(generated, distinct, depth, json, stdout_path, wall_s, violated, error_text).
-    `json` is the list of decoded PrintT(ToJson(..)) lines.
+    `json` is the list of decoded PrintT(ToJson(..)) lines (empty when `on_json` is given: each decoded line is
+    then handed to that callback instead of being kept in memory).
     A TLC invariant / property violation sets `violated`; with allow_violation False it raises
     TLCFailure because, for a *model* run, it means the specification contradicts itself.
     """
@@ -113,9 +114,14 @@ def run_tlc(module: str, cfg_text: str, workdir: str, *, workers=16, env=None, s
         for line in f:
             if line.startswith('"{') or line.startswith('"['):
                 try:
-                    res["json"].append(json.loads(json.loads(line)))
+                    obj = json.loads(json.loads(line))
                 except Exception as ex:  # pragma: no cover
                     raise TLCFailure(f"undecodable JSON line from TLC: {line[:200]} ({ex})")
+                if on_json is not None:
+                    on_json(obj)
+                    res["njson"] = res.get("njson", 0) + 1
+                else:
+                    res["json"].append(obj)
                 continue
             m = _STATS.search(line)
             if m:
